@@ -18,6 +18,12 @@ class TooManyPaths(Exception):
     pass
 
 
+class UnexpandedLoopExit(TooManyPaths):
+    """A loop that the caller did not ask to expand contains a `return`: whatever the walk concludes about returned
+    values / terminals would ignore that exit.  Subclass of TooManyPaths so that every caller that already answers
+    "too many paths -> not decided" answers the same here."""
+
+
 def tri_not(v):
     return None if v is None else (not v)
 
@@ -53,6 +59,7 @@ class Explorer:
         self.expand_loop = expand_loop or (lambda st, state: False)
         self.max_paths = max_paths
         self.n = 0
+        self.strict_loops = True        # refuse to walk past a non-expanded loop that can return
 
     # -- three-valued evaluation with forking on unknown atoms
     def _eval(self, test, state):
@@ -103,6 +110,12 @@ class Explorer:
                 for v, s in self._eval(st.test, self._fork(state)):
                     self._run(list(st.body if v else st.orelse), s, out, [rest] + cont, loop)
                 return
+            if isinstance(st, (ast.For, ast.While)) and not self.expand_loop(st, state) and self.strict_loops:
+                for x in ast.walk(st):
+                    if isinstance(x, (ast.FunctionDef, ast.Lambda, ast.AsyncFunctionDef)):
+                        continue
+                    if isinstance(x, ast.Return):
+                        raise UnexpandedLoopExit(f"loop at line {getattr(st, 'lineno', '?')} returns from inside its body")
             if isinstance(st, (ast.For, ast.While)) and self.expand_loop(st, state):
                 rest = stmts[i + 1:]
                 self.on_stmt(st, state)
